@@ -58,11 +58,38 @@ def run(chk, orch):
             a = common.job_args(spec, opts, cell, oracles=["canonical"])
             orch.submit(cell["hashseed"], "scenarios:pipeline", a, tag=("p", k))
             jobs[k] = (spec, opts, cell, a)
+        # history of the output folder: it holds the unpacked copy of ANOTHER plain-gzip reference with the same file name
+        # (k odd: the new reference file carries an older time stamp); the flags must follow the reference given now
+        for k in range(2 if quick else 4):
+            spec = workload.random_spec(chk.rng, "small")
+            spec.update(n_exp=1, novel=2, noncanon=1, antisense=1)
+            cell = common.random_cell(chk.rng)
+            a = {"spec": spec, "opts": common.cell_opts({"annotated": True, "check_canonical": True}, cell), "sched": cell["sched"],
+                 "old_gz": k % 2 == 1, "oracles": ["canonical"]}
+            orch.submit(cell["hashseed"], "scenarios:folder_reuse", a, tag=("f", k))
+            jobs[("f", k)] = (spec, a["opts"], cell, a)
         for jid, tag, r in orch.results():
             if not r.get("ok"):
                 chk.harness_error(r.get("err"))
                 continue
             res = r["res"]
+            if tag[0] == "f":
+                spec, opts, cell, a = jobs[tag]
+                chk.runs += 3
+                chk.events_simulated += res.get("events", 0)
+                chk.evaluations += 1
+                chk.distinct.add("F%d/%d" % (rounds, tag[1]))
+                chk.faults["output_folder_with_unpacked_copy_of_another_reference"] += 1
+                probs = (res.get("second") or {}).get("oracles", {}).get("canonical") if (res.get("second") or {}).get("oracles") else None
+                if res["second"]["exit"] != 0:
+                    probs = ["run in the reused folder failed with exit %s" % res["second"]["exit"]]
+                if isinstance(probs, dict):
+                    chk.harness_error("oracle crashed: %s" % probs.get("error"))
+                elif probs:
+                    chk.violation("pipeline", {"kind": "reused folder: " + re.sub(r"[0-9]+", "N", probs[0].split(" ", 1)[-1])[:60]},
+                                  "%d problems in a folder that holds the unpacked copy of another reference, first: %s" % (len(probs), " || ".join(probs[:3])),
+                                  {"engine": "pipeline", "oracle": "module:checks.c18", "kind": "F", "args": a, "hashseed": cell["hashseed"]})
+                continue
             if tag[0] == "m":
                 if res.get("error"):
                     chk.harness_error("machine: " + res["error"])
@@ -104,6 +131,16 @@ def run(chk, orch):
 
 
 def replay(doc, orch):
+    if doc.get("kind") == "F":
+        jid = orch.submit(doc.get("hashseed", 0), "scenarios:folder_reuse", doc["args"])
+        r = orch.run_all()[jid][1]
+        if not r.get("ok"):
+            return False, "harness: %s" % r.get("err")
+        sec = r["res"].get("second") or {}
+        probs = (sec.get("oracles") or {}).get("canonical") or []
+        if sec.get("exit") != 0:
+            probs = ["exit %s" % sec.get("exit")]
+        return bool(probs), "\n".join(str(p) for p in probs[:10])
     jid = orch.submit(doc.get("hashseed", 0), "machines.c18:replay_case", {"case": doc["case"]})
     r = orch.run_all()[jid][1]
     if not r.get("ok"):
